@@ -1617,6 +1617,12 @@ func HandleUploadFile(cc *hotline.ClientConn, t *hotline.Transaction) (res []hot
 		return res
 	}
 
+	// An upload aimed at the file root itself (no name, ".") would write the partial file and the forks next to the
+	// root; only the root's existence stood in the way.
+	if isFileRoot(cc, fullFilePath) {
+		return cc.NewErrReply(t, "Cannot accept upload because no file name was given.")
+	}
+
 	if _, err := cc.Server.FS.Stat(fullFilePath); err == nil {
 		return cc.NewErrReply(t, fmt.Sprintf("Cannot accept upload because there is already a file named \"%v\".  Try choosing a different Name.", string(fileName)))
 	}
